@@ -142,6 +142,10 @@ def judge(res, kind, tree, info, r, profile, rng, B):
     res.count("op:%s" % root)
     if out["size"] != out["count"]:
         res.violation("fold:size:%s" % root, "folded value reports size %d, has %d nodes" % (out["size"], out["count"]), case)
+    if not out.get("tc_same", True):
+        res.violation("fold:typed-tree-differs:%s" % root, "the same tree folds differently once every node carries a type variable: "
+                      "%s vs %s" % (json.dumps(out.get("tc_folded"))[:160], json.dumps(got)[:160]), case)
+        return
     if not out["idempotent"]:
         res.violation("fold:idempotent:%s" % root, "fold(fold(t)) != fold(t): %s" % json.dumps(out["twice"])[:200], case)
     if got != want:
@@ -352,7 +356,7 @@ def run(tier, seed, t0):
         "all 21 foldable operators x operand pairs from the boundary set (0,1,2,255..257,2^32,2^64,2^k and 2^k+-1 for "
         "k in the listed set [all of 7..255 in the thorough tier], MIN, MAX, -1) plus random words; every operator "
         "with one or two opaque operands in each position; random trees to depth 4 mixing constants, opaque leaves "
-        "and non-foldable nodes, compared under 5 valuations; balanced and comb-shaped trees of up to ~1000 nodes (all "
+        "and non-foldable nodes, compared under 5 valuations; every tree is also folded in its type-checker form (each node annotated with a type variable) and must give the same result; balanced and comb-shaped trees of up to ~1000 nodes (all "
         "constant, or with one opaque leaf); rel and dev profiles. distinct = distinct tree; "
         "non-trivial = not a plain in-range constant pair (boundary operand class, opaque operand, or random tree)",
         t0, ["vlib/treeeval.py implements EVM word arithmetic correctly (Python big ints)",
